@@ -107,8 +107,14 @@ class PurePath(pathlib.PurePath):
 
         sep = ''
         name = str(self)
-        if isinstance(self, Path) and name and self.is_dir():
-            sep = self.parser.sep if util.PY313 else self._flavour.sep
+        if isinstance(self, Path) and name:
+            try:
+                is_dir = self.is_dir()
+            except OSError:
+                # A path that cannot even be looked up (e.g. a link whose target has an over-long name) is not a directory.
+                is_dir = False
+            if is_dir:
+                sep = self.parser.sep if util.PY313 else self._flavour.sep
 
         return name + sep
 
